@@ -62,6 +62,9 @@ type World struct {
 	// NoDrop: a rolled-back wallet transaction is always re-mined or conflicted on the new branch,
 	// never left pending for ever (used where runs that saw different abandoned blocks are compared)
 	NoDrop bool
+	// Keep: outpoints random transactions never spend (coins whose pending-spend flag a check wants
+	// to see at the end of the history)
+	Keep map[wire.OutPoint]bool
 	// CoinbaseToWallet > 0: every generated block's coinbase also pays this amount to a wallet address
 	// (a large immature coin at the tip: what a query with a stale height would wrongly take for mature)
 	CoinbaseToWallet int64
@@ -237,7 +240,7 @@ func (w *World) spendable(v *View, wallets bool) []*Out {
 	owned := w.AllOwned()
 	var outs []*Out
 	for _, o := range v.Outs {
-		if o.Spent || !o.HasHash || o.Value <= 0 || w.Avoid[o.OP] {
+		if o.Spent || !o.HasHash || o.Value <= 0 || w.Avoid[o.OP] || w.Keep[o.OP] {
 			continue
 		}
 		_, isW := owned[o.Hash]
@@ -408,6 +411,8 @@ func (w *World) BuildBlock(parent *Block, carry []*wire.MsgTx, nRandom int) (*Bl
 		}
 		if err := v.ApplyTx(c, height); err == nil {
 			txs = append(txs, c)
+		} else {
+			w.Logf("(carried transaction %s does not apply on the new branch: %v)", c.TxHash().String()[:10], err)
 		}
 	}
 	for i := 0; i < nRandom; i++ {
